@@ -412,8 +412,8 @@ impl Check for C06 {
     }
     fn count(&self, tier: Tier) -> u64 {
         match tier {
-            Tier::Quick => 60_000,
-            Tier::Thorough => 3_000_000,
+            Tier::Quick => 300_000,
+            Tier::Thorough => 10_000_000,
         }
     }
     fn generate(&self, rng: &mut Rng, _index: u64, _tier: Tier) -> ConnScenario {
